@@ -89,3 +89,49 @@ Proof.
   intros H. rewrite !feed_all_cap_small; [apply feed_all_chunking| |exact H].
   unfold total in *. cbn [concat]. rewrite app_nil_r. exact H.
 Qed.
+
+(* ---- the careful caller loses nothing, whatever the capacity of the inner buffer ---- *)
+Lemma handle_loop_cap_rem_eq cap svc f : forall pos s,
+  match handle_loop_cap_rem cap f svc pos s, handle_loop f svc s with
+  | (o, HOk t u, rem), (o', HOk t' u') => o = o' /\ u = u' /\ t ++ rem = t'
+  | (o, HErr, _), (o', HErr) => o = o'
+  | (o, HFuel, _), (o', HFuel) => o = o'
+  | _, _ => False
+  end.
+Proof.
+  induction f as [|f IH]; intros pos s; cbn [handle_loop_cap_rem handle_loop]; [reflexivity|].
+  destruct (cut_nul s) as [[fr rest]|] eqn:Hc.
+  - destruct (decode_request fr) as [q| |]; try reflexivity.
+    destruct (serve svc q) as [o oc]. destruct oc as [|i|].
+    + specialize (IH (pos + S (length fr))%nat rest).
+      destruct (handle_loop_cap_rem cap f svc (pos + S (length fr)) rest) as [[o2 r] rem].
+      destruct (handle_loop f svc rest) as [o2' r'].
+      destruct r as [t u| |]; destruct r' as [t' u'| |]; try contradiction.
+      * destruct IH as (-> & -> & <-). auto.
+      * subst. reflexivity.
+      * subst. reflexivity.
+    + split; [reflexivity|]. split; [reflexivity|]. apply firstn_skipn.
+    + reflexivity.
+  - split; [reflexivity|]. split; [reflexivity|]. apply app_nil_r.
+Qed.
+
+Lemma feed_step_careful_eq cap svc st c : feed_step_careful cap svc st c = feed_step svc st c.
+Proof.
+  unfold feed_step_careful, feed_step. destruct (fs_closed st); [reflexivity|].
+  unfold handle_cap_rem, handle. destruct (fs_upg st) as [i|].
+  - rewrite app_nil_r. reflexivity.
+  - pose proof (handle_loop_cap_rem_eq cap svc (S (length (fs_tail st ++ c))) O (fs_tail st ++ c)) as H.
+    destruct (handle_loop_cap_rem cap (S (length (fs_tail st ++ c))) svc 0 (fs_tail st ++ c)) as [[o r] rem].
+    destruct (handle_loop (S (length (fs_tail st ++ c))) svc (fs_tail st ++ c)) as [o' r'].
+    destruct r as [t u| |]; destruct r' as [t' u'| |]; try contradiction.
+    + destruct H as (-> & -> & <-). reflexivity.
+    + subst. reflexivity.
+    + subst. reflexivity.
+Qed.
+
+Theorem feed_all_careful_eq cap svc chunks : feed_all_careful cap svc chunks = feed_all svc chunks.
+Proof.
+  unfold feed_all_careful, feed_all. generalize fs_init. generalize (chunks ++ [[]]).
+  intros l. induction l as [|c r IH]; intros st; cbn [feed_careful feed]; [reflexivity|].
+  rewrite feed_step_careful_eq. destruct (feed_step svc st c) as [st1 o1]. rewrite IH. reflexivity.
+Qed.
